@@ -5,7 +5,6 @@ from __future__ import annotations
 from typing import TYPE_CHECKING
 from typing import Union
 
-from liquid import Mode
 from liquid.exceptions import FilterArgumentError
 from liquid.exceptions import FilterError
 from liquid.exceptions import LiquidSyntaxError
@@ -381,11 +380,14 @@ class Filter:
                             token=tokens.current,
                         )
                 elif tok.kind == TOKEN_COMMA:
-                    if env.mode == Mode.STRICT and tokens.peek.kind == TOKEN_COMMA:
-                        raise LiquidSyntaxError(
-                            "expected a comma separated list of arguments, "
-                            f"found {tokens.peek.kind}",
-                            token=tokens.peek,
+                    if tokens.peek.kind == TOKEN_COMMA:
+                        # Raise in strict mode, warn in warn mode, ignore in lax mode.
+                        env.error(
+                            LiquidSyntaxError(
+                                "expected a comma separated list of arguments, "
+                                f"found {tokens.peek.kind}",
+                                token=tokens.peek,
+                            )
                         )
                     next(tokens)
                 else:
